@@ -183,6 +183,8 @@ type Worker struct {
 	funcsSeen map[*ssa.Function]bool
 	timerVals map[*value]*timer
 	pathOpen  bool
+	lowered   map[*term]*term
+	lowSeq    int
 	m         *models // sync/time/thread models, reset per path
 }
 
@@ -651,6 +653,8 @@ func (w *Worker) resetPath(prefix []dec) {
 	w.notes = nil
 	w.violated = false
 	w.timerVals = nil
+	w.lowered = nil
+	w.lowSeq = 0
 	if w.pathOpen {
 		w.sol.send("(pop 1)")
 	} else {
